@@ -104,7 +104,7 @@ def main():
       ],
       "checks": [],
       "not_applicable": [],
-      "notes": "Exit codes of every command: 0 property held on everything explored (KNOWN-FINDING lines allowed), 1 VIOLATION line printed, 2 machinery failure (build error, non-vacuity floor, replay divergence). Known findings: known-findings.txt. Design: DESIGN.md."
+      "notes": "Exit codes of every command: 0 property held on everything explored (KNOWN-FINDING lines allowed), 1 VIOLATION line printed, 2 machinery failure (build error, non-vacuity floor, replay divergence). Known findings: known-findings.txt. Design: DESIGN.md. Common to all checks (DESIGN.md 9.4b): the getrandom shim is preloaded, cases run in chunks of consecutive indices on fresh threads with owned hash keys, a failing case is re-run alone to tell 'fails by itself' from 'fails after its predecessors' (both replayable), and an interference stage runs ordered pairs / the whole list / a long repeated run of representative cases in fresh single-threaded child processes."
     }
     for pid in allp:
         if pid in CHECKS:
@@ -117,7 +117,7 @@ def main():
               "replay_cmd_template": "./check replay {path}",
               "engine": "vharness",
               "level_claimed": {"category": "model_checking", "text": text, "design_ref": ref},
-              "level_note": note,
+              "level_note": note + ("" if pid in ("C11", "C12", "C13", "C01") else "; hash keys owned per chunk (getrandom shim), interference stage over representative cases (DESIGN.md 9.4b)"),
               "technique": t
             })
         else:
